@@ -12,7 +12,7 @@ MUTATING = {"insert", "remove", "clear", "append", "pop_first", "pop_last", "get
 
 
 def owner_rule(rep, prog):
-    rid = rep.rule("R1", "the map is mutated only through entry()/or_default (helpers of action) and retain() inside prune; no other mutating map API is called in the tracker crate")
+    rid = rep.rule("R1", "the map is mutated only through entry()/or_default (helpers of action) and retain() / remove() inside prune; no other mutating map API is called in the tracker crate")
     crate = prog.crates["rsadsb_common"]
     uses = {}
     for f in crate.fns.values():
@@ -31,11 +31,11 @@ def owner_rule(rep, prog):
             rep.instance(rid, "%s|%s" % (meth, fn), sample={"method": meth, "in": fn})
             if meth == "entry":
                 continue
-            if meth == "retain" and fn.startswith("rsadsb_common::Airplanes::prune"):
-                continue
+            if meth in ("retain", "remove") and fn.startswith("rsadsb_common::Airplanes::prune"):
+                continue        # expiry itself (which records it removes is C15 R1)
             rep.violation("R1", "map-mutation:%s:%s" % (meth, _pub(fn)), "BTreeMap::%s is called in %s: the tracked set may only grow through entry() and shrink through expiry" % (meth, fn))
     rep.floor("map entry() call sites", 1, len(uses.get("entry", ())))
-    rep.floor("map retain() call sites", 1, len(uses.get("retain", ())))
+    rep.floor("expiry call sites (retain / remove inside prune)", 1, len([f_ for m_ in ("retain", "remove") for f_ in uses.get(m_, ()) if f_.startswith("rsadsb_common::Airplanes::prune")]))
 
 
 def _pub(fn):
